@@ -805,4 +805,19 @@ theorem lfTotal_leader (n : Nat) (groups : List (List FiberIn)) :
     simp only [List.map_cons, List.sum_cons, List.length_cons]
     omega
 
+theorem singletons_ok (n : Nat) (fs : List FiberIn)
+    (hshape : ∀ f ∈ fs, f.oi.length + 1 = n ∧ f.pre.length + 1 = n) :
+    GroupsOk n (fs.map (fun f => [f])) := by
+  intro g hg
+  obtain ⟨f, hf, rfl⟩ := List.mem_map.1 hg
+  refine ⟨?_, rfl, rfl⟩
+  intro f' hf'
+  rw [List.mem_singleton.1 hf']
+  exact hshape f hf
+
+theorem flatten_singletons (fs : List FiberIn) : (fs.map (fun f => [f])).flatten = fs := by
+  induction fs with
+  | nil => rfl
+  | cons f r ih => simp [ih]
+
 end Ft
